@@ -31,8 +31,19 @@ func (r *Region) add(kind string, f func(a *Term) *Term) {
 
 func (r *Region) setRoot(a *Term) {
 	r.curRoot = 0
-	if rt, k := addrRoot(a); k == 1 && rt.K > 0 {
+	rt, k := addrRoot(a)
+	if k == 1 && rt.K > 0 {
 		r.curRoot = rt.K
+	}
+	// "nil or the fresh object K" (a freshornil result): cells below it exist only in the fresh object
+	if k == 0 && rt.Op == OpIte {
+		x, y := rt.Args[1], rt.Args[2]
+		if x.Op == OpNil {
+			x, y = y, x
+		}
+		if y.Op == OpNil && x.Op == OpObj && x.K > 0 {
+			r.curRoot = x.K
+		}
 	}
 }
 
@@ -634,8 +645,19 @@ func (fr *frame) applyContract(st *State, bc *BoundContract, args []Val, pos tok
 			a := u.newObj()
 			u.MC.Opaque[a.K] = true
 			v = a
+			if bc.FreshOrNil[i] {
+				if _, isPtr := rt.Underlying().(*types.Pointer); isPtr {
+					v = c.Ite(c.Var(u.freshName("r_"+bc.FC.Name+".isnil"), SBool), c.NilA, a)
+				}
+			}
 			if _, isIface := rt.Underlying().(*types.Interface); isIface {
 				v = &IfaceV{Tag: c.Var(u.freshName("r_"+bc.FC.Name+".tag"), BV(32)), Ptr: a}
+			}
+			if isString(rt) {
+				// strings are immutable: a result string may always be treated as a fresh copy (no aliasing to reason about)
+				ln := c.Var(u.freshName("r_"+bc.FC.Name+".len"), BV(64))
+				u.assumeGlobal(c.ULe(ln, c.BVu(maxLen, 64)))
+				v = &SliceV{Str: true, Base: a, Off: c.BVu(0, 64), Len: ln, Cap: ln}
 			}
 			if _, isSlice := rt.Underlying().(*types.Slice); isSlice {
 				// a freshly allocated backing array of unknown contents, length and capacity
@@ -645,6 +667,9 @@ func (fr *frame) applyContract(st *State, bc *BoundContract, args []Val, pos tok
 			}
 		} else {
 			v = u.symVal(u.freshName("r_"+bc.FC.Name), rt, false)
+		}
+		if sv, ok := v.(*SliceV); ok && sv.Str && isString(rt) {
+			u.externStrs = append(u.externStrs, sv)
 		}
 		results = append(results, v)
 	}
@@ -755,7 +780,9 @@ func (fr *frame) runLoop(l *loop, ins []edge, incoming map[*ssa.BasicBlock][]edg
 		}
 	}
 	if len(invs) == 0 && (bc == nil || !bc.HasLoop[l.ordinal]) {
-		unsupported("loop %d of %s has no invariant", l.ordinal, fr.fn)
+		// a loop without any clause gets the weakest contract: invariant true, frame inferred from its body. What
+		// follows the loop then knows nothing about what the loop assigns: obligations that depend on it fail by name
+		u.Warnings = append(u.Warnings, fmt.Sprintf("loop %d of %s has no invariant: invariant true, inferred frame", l.ordinal, fr.fn))
 	}
 	if len(fr.defers) > 0 {
 		// defers registered before the loop are fine; defers inside loops are rejected in execInstr
